@@ -90,6 +90,28 @@ func e17Universe() []metav1.Object {
 			}
 		}
 	}
+	// events about CLUSTER-SCOPED objects: the reference has no namespace, the event lives in one
+	for _, ens := range []string{"default", "n0"} {
+		for _, nm := range []string{"a", "node1"} {
+			out = append(out, &corev1.Event{ObjectMeta: metav1.ObjectMeta{Namespace: ens, Name: "ev-node-" + nm + "-" + ens},
+				InvolvedObject: corev1.ObjectReference{Kind: "Node", Namespace: "", Name: nm}})
+			out = append(out, &corev1.Event{ObjectMeta: metav1.ObjectMeta{Namespace: ens, Name: "ev-pod-nons-" + nm + "-" + ens},
+				InvolvedObject: corev1.ObjectReference{Kind: "Pod", Namespace: "", Name: nm}})
+		}
+	}
+	// cluster-scoped objects (no namespace), namespaces where one is the other plus "-suffix",
+	// label keys and values with characters that have a meaning in a selector's text form
+	for _, nm := range []string{"a", "node1", "node-1"} {
+		out = append(out, &corev1.Node{ObjectMeta: metav1.ObjectMeta{Name: nm, Labels: map[string]string{"l": "x"}}})
+	}
+	for _, ns := range []string{"app", "app-staging", "app-staging-eu", "ap"} {
+		for _, nm := range []string{"web", "a"} {
+			out = append(out, kit.Pod(ns, nm, "1", map[string]string{"l": "x"}))
+		}
+	}
+	for i, lm := range []map[string]string{{"a": "1", "b": "2"}, {"a": "1,b=2"}, {"a=b": "c"}, {"a": "b=c"}, {"a": "1,b"}, {"a": "1", "b": "z"}, {"a": "1"}} {
+		out = append(out, kit.Pod("n0", fmt.Sprintf("odd%d", i), "1", lm))
+	}
 	out = append(out, &corev1.Secret{ObjectMeta: metav1.ObjectMeta{Namespace: "n0", Name: "a", Labels: map[string]string{"l": "x", "m": "1"}}})
 	out = append(out, &corev1.Secret{ObjectMeta: metav1.ObjectMeta{Namespace: "n1", Name: "b"}})
 	return out
@@ -578,6 +600,17 @@ func e17Atoms() []*kit.Term {
 	for _, m := range []map[string]string{{}, {"l": "x"}, {"l": "x", "m": "1"}, {"l": ""}} {
 		at = append(at, kit.TSelector(m))
 	}
+	// Labels() does not validate its map: keys/values containing ',' or '=' are legal inputs,
+	// and their text form collides with that of other selectors
+	for _, m := range []map[string]string{{"a": "1", "b": "2"}, {"a": "1,b=2"}, {"a=b": "c"}, {"a": "b=c"}, {"a": "1,b"}} {
+		at = append(at, kit.TLabels(m))
+	}
+	at = append(at, kit.TLSel(lsel(map[string]string{"a": "1"}, req("b", metav1.LabelSelectorOpExists))))
+	// NSName over namespaces that are prefixes of one another, and over cluster-scoped names
+	at = append(at, kit.TNSName(ids("app/web", "app-staging/web")...), kit.TNSName(ids("app-staging/web", "app/web", "app-staging-eu/a")...),
+		kit.TNSName(ids("ap/a", "app/a", "app-staging/a", "app-staging-eu/web")...), kit.TNSName(ids("/node-1")...), kit.TNSName(ids("/node1", "n0/")...),
+		kit.TNSName(ids("/a")...))
+	at = append(at, tInvolved("Node", "", "a"), tInvolved("Node", "", "node1"), tInvolved("Pod", "default", "a"), tInvolved("Node", "default", "node1"))
 	// selectors that are not built from a label set: the zero selector of every flavour,
 	// the nothing selector, parsed ones
 	psel := func(name string, mk func() labels.Selector, eval func(map[string]string) bool) *kit.Term {
@@ -895,6 +928,26 @@ func e17EqualityCase(chunk, chunks int, seed uint64, depth3Pairs int) Case {
 							r.V("C17", "unsound-equality", "%s.PodsFilter built for the %d. time from the caller's own slice %v compares equal to the fresh one but disagrees on %T %s/%s", kind, rep+1, pk, o, o.GetNamespace(), o.GetName())
 							break
 						}
+					}
+				}
+			}
+		}
+		// order independence for sources whose namespace/name pairs collide when glued
+		// together without a separator ("team1"+"0-db" == "team"+"10-db"), in every order
+		if chunk == 0 {
+			for _, kind := range wlKinds {
+				ws := e17Workloads(kind)
+				a, b, c := ws[2%len(ws)], ws[5%len(ws)], ws[7%len(ws)]
+				a.ns, a.name = "team1", "0-db"
+				b.ns, b.name = "team", "10-db"
+				c.ns, c.name = "tea", "m10-db"
+				ref := buildPodsFilter(kind, []wl{a, b, c})
+				for _, perm := range [][]wl{{a, c, b}, {b, a, c}, {b, c, a}, {c, a, b}, {c, b, a}} {
+					f := buildPodsFilter(kind, perm)
+					r.Add("permutation-checks", 1)
+					if !filter.FiltersEqual(ref, f) || !filter.FiltersEqual(f, ref) {
+						r.V("C17", "permutation-not-equal", "%s.PodsFilter over the sources team1/0-db, team/10-db, tea/m10-db does not compare equal to the same sources given in another order", kind)
+						break
 					}
 				}
 			}
